@@ -6,7 +6,7 @@ from be_check import run_be, replay_be
 
 PID = 'C05'
 MANIFEST = dict(
-    text='Machine-checked (Coq): the backend micro-step model refines a timestamp skeleton (every micro-step is matched by skeleton steps: proved simulation), and the skeleton\'s ordering invariant holds for every op list; hence for every interleaving of clock reads, registrations, enqueues and backend steps over any number of threads, every capacity and soft/hard limit, the sequence of events the backend processes is sorted by timestamp, provided the grace period is non-zero, the cache is refreshed again after the clock read (read from the source each run), formatter exceptions are contained, and each statement is committed within the grace period of its timestamp (C05_sorted). The pinned tree\'s order is refuted (D5, fixed) and so is a zero grace period (documented meaning). Model run against the real backend with a virtual clock (interposed clock_gettime), threads stalled between clock read and enqueue, first-time threads injected at the yield points around the clock read; monitor on the implementation: written timestamps non-decreasing whenever the run respected the grace period. Scope: one ideal clock (TSC drift/resync not modelled), user clocks excluded as in the code, SC at micro-step granularity. UnboundedBlocking frontends (the default queue type; initial node 256/1024 bytes so that queues grow) run through the same driver and are judged by the property monitor on the implementation only: M-BE models one bounded queue per thread, the node switching of the unbounded queue is proved and tied in C02.',
+    text='Machine-checked (Coq): the backend micro-step model refines a timestamp skeleton (every micro-step is matched by skeleton steps: proved simulation), and the skeleton\'s ordering invariant holds for every op list; hence for every interleaving of clock reads, registrations, enqueues and backend steps over any number of threads, every capacity and soft/hard limit, the sequence of events the backend processes is sorted by timestamp, provided the grace period is non-zero, the cache is refreshed again after the clock read (read from the source each run), formatter exceptions are contained, and each statement is committed within the grace period of its timestamp (C05_sorted). The pinned tree\'s order is refuted (D5, fixed) and so is a zero grace period (documented meaning). Model run against the real backend with a virtual clock (interposed clock_gettime), threads stalled between clock read and enqueue, first-time threads injected at the yield points around the clock read; monitor on the implementation: written timestamps non-decreasing whenever the run respected the grace period. Scope: one ideal clock (TSC drift/resync not modelled), user clocks excluded as in the code, SC at micro-step granularity. Queue kinds: bounded blocking, bounded dropping and UnboundedBlocking frontends (the default type; initial node 256/1024 bytes so that queues grow). For unbounded frontends the thread record of M-BE carries the node structure of the queue (the sequential layer of M-UQ, updated at every queue call; it decides the backend\'s per-call read limit = capacity of the consumer\'s current node) next to a byte queue too large to fill; the theorems quantify over every initial node structure (premise fresh_thr) and every capacity, and the extracted model is compared with the real backend on growing queues as well.',
     design='5 C05', technique='Coq refinement proof (backend micro-step machine -> timestamp skeleton) + ordering invariant + source-fact translator + deterministic-driver differential correspondence')
 
 GRACES = [1000, 1000, 5000]
